@@ -647,11 +647,11 @@ class ExprMixin:
         self.oblige_or_raise(z3.And(-n <= i, i < n), 'IndexError', 'index in range', node)
         # specs index from the front only (negative indices are a code-level feature)
         i2 = i if self.pure_mode else z3.simplify(z3.If(i < 0, i + n, i))
-        return V(s.elem, s.at(cont.t, i2), origin=('item', node))
+        return V(s.elem, s.at(cont.t, i2), origin=('item', node, V(S.INT, i2)))
       if isinstance(s, S.DictOf):
         k = self.coerce(idx, s.key)
         self.oblige_or_raise(s.has(cont.t, k.t), 'KeyError', 'key present', node)
-        return V(s.val, s.get(cont.t, k.t), origin=('item', node))
+        return V(s.val, s.get(cont.t, k.t), origin=('item', node, k))
       if isinstance(s, S.Tup):
         i = z3.simplify(self.as_int(idx))
         if not z3.is_int_value(i):
@@ -769,6 +769,13 @@ class ExprMixin:
                              origin=holder.origin)
         newval = V(newval.sort, newval.t, origin=org)
       elif org is not None and org[0] == 'item' and isinstance(newval, V):
+        # `x = holder[k]` followed by an in-place mutation of x: the mutable value is shared with
+        # the holder, so the update is written through to holder[k] (k as evaluated at the read)
+        node = org[1]
+        if len(org) > 2 and isinstance(getattr(node, 'value', None), (ast.Name, ast.Attribute, ast.Subscript)) and not self.pure_mode:
+          holder = self.eval(node.value)
+          if isinstance(holder, V) and isinstance(holder.sort, (S.DictOf, S.Seq)):
+            self.store_back(node.value, self.set_item(holder, org[2], newval, node))
         newval = V(newval.sort, newval.t, origin=org)
       self.env[lval.id] = newval
       # write-through for aliases created by `x = holder[k]` / `for x in seqs`
